@@ -275,7 +275,7 @@ theorem checkTypes_at (m : Module) : ∀ er ∈ (checkTypes m).errs, ErrAt m er 
 
 theorem attrOne_at (a : Attr) : ∀ er ∈ (attrOne a).errs, er.l = a.l ∧ er.file = a.file := by
   intro er h
-  rcases a with ⟨file, l, k, sg, v⟩
+  rcases a with ⟨file, l, k, sg, v, c⟩
   cases v <;> cases k <;> simp only [attrOne] at h
   all_goals (repeat' split at h)
   all_goals simp [err] at h
